@@ -96,10 +96,17 @@ def exp2_slices32(n0, T, E, count, rng):
         return []
     hmin, hmax = amin >> 8, amax >> 8
     hs = {hmax, hmin, (hmax - 1) if hmax > hmin else hmax}
-    while len(hs) < min(count, hmax - hmin + 1):
+    # boundary-directed: the slices just below and just above integers (the integer/fraction split, fractions near 1)
+    if -E >= 8:
+        for n in (-1, -2, -3, -8, 0, 1, 5):
+            for h in (((n << -E) >> 8) - 1, (n << -E) >> 8):
+                if hmin <= h <= hmax:
+                    hs.add(h)
+    target = len(hs) + max(0, count - 3)
+    while len(hs) < min(target, hmax - hmin + 1):
         hs.add(rng.randint(hmin, hmax))
     out = []
-    for h in sorted(hs)[:max(count, 3)]:
+    for h in sorted(hs):
         k = mk_exp2("K%d" % (n0 + len(out)), T, E, slice_hi=h)
         if k is not None:
             out.append(k)
